@@ -42,7 +42,7 @@ func genDAG(r *rng, n int, s *summary) *pipeline {
 	perm := r2.intn(len(names))
 	for i := 0; i < n; i++ {
 		st := &pstage{file: names[(i+perm)%len(names)]}
-		if r.chance(1, 3) {
+		if r.chance(1, 2) {
 			st.outDir = true
 			st.out = fmt.Sprintf("out%d/data", i)
 			if r.chance(1, 2) {
@@ -79,6 +79,18 @@ func genDAG(r *rng, n int, s *summary) *pipeline {
 			src := pl.sources[r.intn(len(pl.sources))]
 			st.ins = append(st.ins, src)
 			st.srcs = append(st.srcs, src)
+		}
+		if i > 0 && r.chance(1, 3) {
+			// a plain input in a directory whose NAME merely starts with an earlier output's path
+			// (string prefix, not path prefix): it has no owner
+			up := pl.stages[r.intn(i)]
+			sib := up.out + "_raw/in.txt"
+			if !strings.Contains(up.out, ".") {
+				pl.sources = append(pl.sources, sib)
+				st.ins = append(st.ins, sib)
+				st.srcs = append(st.srcs, sib)
+				s.count("input:sibling-with-output-name-as-string-prefix")
+			}
 		}
 		if k == 0 && r.chance(1, 5) {
 			// a stage with a command and no inputs: always runs
@@ -205,6 +217,7 @@ func onePipe(o *opts, r *rng, s *summary, i int, pl *pipeline, distinct map[stri
 	p := newProject(o, base, []string{"in", "abs"}[r.intn(2)])
 	p.init()
 	for k, src := range pl.sources {
+		must(os.MkdirAll(filepath.Dir(filepath.Join(p.Root, src)), 0o755))
 		must(os.WriteFile(filepath.Join(p.Root, src), []byte(fmt.Sprintf("source%d-v0\n", k)), 0o644))
 	}
 	var sems []CmdSem
@@ -368,6 +381,55 @@ func onePipe(o *opts, r *rng, s *summary, i int, pl *pipeline, distinct map[stri
 				s.count("edit:damage-output")
 			}
 			lastFullRun = false
+		}
+		if k == steps-1 && r.chance(1, 2) {
+			// edit a source; run and commit only an upstream stage; then a full run must bring
+			// everything downstream up to date
+			var ups []*pstage
+			for _, a := range pl.stages {
+				only := len(a.ins) > 0
+				for _, in := range a.ins {
+					if !strings.HasPrefix(in, "src") {
+						only = false
+					}
+				}
+				down := false
+				for _, b := range pl.stages {
+					for _, in := range b.ins {
+						if in == a.out || in == a.dst {
+							down = true
+						}
+					}
+				}
+				if only && down {
+					ups = append(ups, a)
+				}
+			}
+			if len(ups) > 0 {
+				a := ups[r.intn(len(ups))]
+				// first bring the project to a committed, consistent state
+				t, w = p.do(Cmd{Kind: "run"}, sems, want(18, 19, 23, 8, 9), nil, nil)
+				add(t, "run")
+				if t.OK {
+					t, w = p.do(Cmd{Kind: "commit"}, sems, want(11, 1), nil, nil)
+					add(t, "commit after run")
+				}
+				if t.OK {
+					version++
+					for _, in := range a.ins {
+						must(os.WriteFile(filepath.Join(p.Root, in), []byte(fmt.Sprintf("%s-v%d\n", in, version)), 0o644))
+					}
+					t, w = p.do(Cmd{Kind: "run", Targets: []string{a.file}}, sems, want(18, 23, 8, 9), nil, nil)
+					add(t, "run upstream stage only")
+					if t.OK {
+						t, w = p.do(Cmd{Kind: "commit", Targets: []string{a.file}}, sems, want(11, 1), nil, nil)
+						add(t, "commit upstream stage only")
+						t, w = p.do(Cmd{Kind: "run"}, sems, want(18, 19, 23, 8, 9), nil, nil)
+						add(t, "run after upstream was regenerated and committed")
+						s.count("history:edit;run up;commit up;run")
+					}
+				}
+			}
 		}
 		if r.chance(1, 6) {
 			c := Cmd{Kind: []string{"status", "graph"}[r.intn(2)]}
